@@ -283,7 +283,7 @@ func c04Body(c *core.Ctx) {
 			kinds := []string{"signal", "cancel", "http"}
 			spec.Stop = &vexec.StopSpec{Kind: kinds[r.Intn(len(kinds))], At: "decision", Nth: r.Intn(14)}
 			if r.Intn(4) == 0 {
-				ats := []string{"launch", "worker.beforeExec", "retry.wait"}
+				ats := []string{"beforeLaunch", "launch", "worker.beforeExec", "retry.wait"}
 				spec.Stop.At = ats[r.Intn(len(ats))]
 				spec.Stop.Nth = r.Intn(3)
 			}
@@ -368,7 +368,7 @@ func c04Body(c *core.Ctx) {
 			spec.PauseUs = 200
 			if spec.Stop != nil {
 				// free-running: the stop lands at the n-th launch / beforeExec
-				spec.Stop.At = []string{"launch", "worker.beforeExec"}[i%2]
+				spec.Stop.At = []string{"launch", "worker.beforeExec", "beforeLaunch"}[i%3]
 				spec.Stop.Nth = i % 3
 				if spec.Stop.Kind == "http" {
 					spec.Stop.Kind = "signal"
